@@ -16,36 +16,36 @@ PROPS = {
         "modelled": CORE_MODELLED,
     },
     "C02": {
-        "quick": [("gc", 250, 120), ("limits", 90, 80), ("cycle", 28, 40), ("ser", 16, 60), ("fork", 30, 80)],
-        "thorough": [("gc", 4000, 300), ("limits", 900, 200), ("cycle", 140, 400), ("ser", 200, 120), ("fork", 500, 160)],
+        "quick": [("wrap", 12, 0), ("gc", 250, 120), ("limits", 90, 80), ("cycle", 28, 40), ("ser", 16, 60), ("fork", 30, 80)],
+        "thorough": [("wrap", 120, 0), ("gc", 4000, 300), ("limits", 900, 200), ("cycle", 140, 400), ("ser", 200, 120), ("fork", 500, 160)],
         "rule": "as C01 plus the limits profile (groups of 14-16 members, 13-14 live groups, N labels); non-trivial = at least one collection",
         "nontrivial": "collections",
         "modelled": CORE_MODELLED,
     },
     "C03": {
-        "quick": [("rw", 300, 120), ("gc", 100, 120), ("ser", 16, 60), ("fork", 30, 80)],
-        "thorough": [("rw", 4000, 300), ("gc", 1000, 300), ("ser", 200, 120), ("fork", 500, 160)],
+        "quick": [("wrap", 12, 0), ("rw", 300, 120), ("gc", 100, 120), ("ser", 16, 60), ("fork", 30, 80)],
+        "thorough": [("wrap", 120, 0), ("rw", 4000, 300), ("gc", 1000, 300), ("ser", 200, 120), ("fork", 500, 160)],
         "rule": "read/write-heavy histories (label pool of Alpha, one-character and text labels; overwrites of existing labels; data lengths around the 8-byte boundary in both representations; collections of other groups in between); non-trivial = at least one overwriting put or re-added id",
         "nontrivial": "rw",
         "modelled": CORE_MODELLED,
     },
     "C04": {
-        "quick": [("gc", 250, 120), ("cycle", 28, 40), ("ser", 16, 60), ("fork", 30, 80)],
-        "thorough": [("gc", 4000, 300), ("cycle", 140, 400), ("alloc", 1000, 200), ("ser", 200, 120), ("fork", 500, 160)],
+        "quick": [("wrap", 12, 0), ("gc", 250, 120), ("cycle", 28, 40), ("ser", 16, 60), ("fork", 30, 80)],
+        "thorough": [("wrap", 120, 0), ("gc", 4000, 300), ("cycle", 140, 400), ("alloc", 1000, 200), ("ser", 200, 120), ("fork", 500, 160)],
         "rule": "histories with add of present ids (members of live groups) and re-add of collected ids, explicitly and through next_id, also on reloaded graphs and on clones (ids collected before the save / the clone); non-trivial = at least one re-add of an id that was present earlier",
         "nontrivial": "readds",
         "modelled": CORE_MODELLED,
     },
     "C05": {
-        "quick": [("alloc", 300, 120), ("gc", 100, 120), ("fork", 150, 80), ("merge", 150, 0), ("script", 60, 12), ("ser", 30, 60)],
-        "thorough": [("alloc", 4000, 300), ("gc", 1000, 300), ("cycle", 140, 400), ("fork", 3000, 160), ("merge", 4000, 0), ("script", 1500, 16), ("ser", 300, 120)],
+        "quick": [("wrap", 12, 0), ("alloc", 300, 120), ("gc", 100, 120), ("fork", 150, 80), ("merge", 150, 0), ("script", 60, 12), ("ser", 30, 60)],
+        "thorough": [("wrap", 120, 0), ("alloc", 4000, 300), ("gc", 1000, 300), ("cycle", 140, 400), ("fork", 3000, 160), ("merge", 4000, 0), ("script", 1500, 16), ("ser", 300, 120)],
         "rule": "allocator-heavy histories (explicit add ahead of and behind the position, collections freeing lower ids) and the fork profile (clones taken after a random prefix / after everything was read and collected / after allocator calls only / at once, then next_id on both copies), and reloaded graphs (the allocator restarts: the ids it hands out must still be absent); non-trivial = at least two next_id calls",
         "nontrivial": "nextids",
         "modelled": CORE_MODELLED,
     },
     "C06": {
-        "quick": [("cycle", 42, 60), ("limits", 30, 80), ("fork", 60, 80), ("ser", 24, 60)],
-        "thorough": [("cycle", 560, 1500), ("cycle", 2, 9000), ("limits", 300, 200), ("fork", 1500, 160), ("ser", 300, 120)],   # ("cycle", 2, 9000): one history of 72 000 cycles (a 16-bit counter would wrap)
+        "quick": [("wrap", 12, 0), ("cycle", 42, 60), ("limits", 30, 80), ("fork", 60, 80), ("ser", 24, 60)],
+        "thorough": [("wrap", 120, 0), ("cycle", 560, 1500), ("cycle", 2, 9000), ("limits", 300, 200), ("fork", 1500, 160), ("ser", 300, 120)],   # ("cycle", 2, 9000): one history of 72 000 cycles (a 16-bit counter would wrap)
         "rule": "create-put-read cycles over a rotating id set with k = 0..13 long-lived groups, four orders of put/bind/add per cycle; non-trivial = at least 15 collections in one history (the 14 slots have wrapped around)",
         "nontrivial": "cycles",
         "modelled": CORE_MODELLED,
